@@ -226,7 +226,7 @@ def isinstance_one(I, v, t):
         if isinstance(v, Env):
             return _env_isinstance(I, v, name, None)
         if hasattr(v, "ext_class"):
-            return v.ext_class == name or name in getattr(v, "ext_bases", ())
+            return v.ext_class == name or name in getattr(v, "ext_bases", ()) or v.ext_class.split(".")[-1] == name.split(".")[-1]
         if isinstance(v, Obj):
             return name in v.cls.external_bases(I.repo)
         return False
